@@ -23,11 +23,13 @@ import (
 	"crypto/sha256"
 	"crypto/x509"
 	"crypto/x509/pkix"
+	"encoding/json"
 	"encoding/pem"
 	"errors"
 	"fmt"
 	"math/big"
 	"os"
+	"os/exec"
 	"path"
 	"path/filepath"
 	"sort"
@@ -42,7 +44,90 @@ import (
 	"github.com/notaryproject/notation-go/verifier/truststore"
 )
 
-func main() { Main("c13", runC13) }
+func main() {
+	if os.Getenv("VH_C13_CHILD") != "" {
+		childMain()
+		return
+	}
+	Main("c13", runC13)
+}
+
+// ---------- one call in a child process (a call that may never return) ----------
+
+type childOut struct {
+	Certs   [][]byte `json:"certs"`    // DER of the certificates returned
+	NilList bool     `json:"nil_list"` // the returned slice was nil
+	IsErr   bool     `json:"is_err"`
+	Cls     string   `json:"cls"`
+	Kind    string   `json:"kind"`
+	Entry   string   `json:"entry"`
+	Msg     string   `json:"msg"`
+}
+
+// childErr carries the classification made in the child.
+type childErr struct{ o childOut }
+
+func (e *childErr) Error() string { return e.o.Msg }
+
+// childMain: VH_C13_CHILD=1 vh-c13 <root> <type> <name>; prints one JSON line.
+func childMain() {
+	root, ty, nm := os.Args[1], os.Args[2], os.Args[3]
+	ts := truststore.NewX509TrustStore(dir.NewSysFS(root))
+	certs, err := ts.GetCertificates(context.Background(), truststore.Type(ty), nm)
+	o := childOut{NilList: certs == nil}
+	for _, c := range certs {
+		if c == nil {
+			o.Certs = append(o.Certs, nil)
+		} else {
+			o.Certs = append(o.Certs, c.Raw)
+		}
+	}
+	if err != nil {
+		o.IsErr = true
+		o.Cls, o.Kind, o.Entry = classify(err)
+		o.Msg = err.Error()
+	}
+	b, _ := json.Marshal(o)
+	os.Stdout.Write(append(b, '\n'))
+}
+
+// callInChild runs GetCertificates(root, ty, nm) in a re-executed child; hung reports
+// that it did not return within the limit (the child is killed).
+func callInChild(root, ty, nm string, limit time.Duration) (certs []*x509.Certificate, err error, hung bool) {
+	ctx, cancel := context.WithTimeout(context.Background(), limit)
+	defer cancel()
+	cmd := exec.CommandContext(ctx, os.Args[0], root, ty, nm)
+	cmd.Env = append(os.Environ(), "VH_C13_CHILD=1")
+	out, runErr := cmd.Output()
+	if ctx.Err() != nil {
+		return nil, nil, true
+	}
+	if runErr != nil {
+		panic(fmt.Sprintf("c13 child: %v: %s", runErr, out))
+	}
+	var o childOut
+	if e := json.Unmarshal(out, &o); e != nil {
+		panic(fmt.Sprintf("c13 child output: %v: %q", e, out))
+	}
+	if !o.NilList {
+		certs = []*x509.Certificate{}
+	}
+	for _, der := range o.Certs {
+		if der == nil {
+			certs = append(certs, nil)
+			continue
+		}
+		x, e := x509.ParseCertificate(der)
+		if e != nil {
+			panic(e)
+		}
+		certs = append(certs, x)
+	}
+	if o.IsErr {
+		err = &childErr{o}
+	}
+	return certs, err, false
+}
 
 // ---------- certificate pool ----------
 
@@ -273,15 +358,21 @@ func (d *fnode) lookupDir(p string) (*fnode, bool) {
 	return cur, true
 }
 
-// fifos records, per FIFO created, the bytes a writer will feed into it.
+// fifos records, per FIFO created, the bytes a writer will feed into it;
+// unfed the FIFOs nobody will ever write to (a reader that opens one blocks for ever).
 var fifos = map[string][]byte{}
+var unfed = map[string]bool{}
 
 func materialise(scn string, at string, n *fnode) error {
 	switch n.kind {
 	case 'f':
 		return os.WriteFile(at, n.data, 0o644)
 	case 'p':
-		fifos[at] = n.data
+		if n.note == "fifo-no-writer" {
+			unfed[at] = true
+		} else {
+			fifos[at] = n.data
+		}
 		return syscall.Mkfifo(at, 0o644)
 	case 's':
 		return syscall.Mknod(at, syscall.S_IFSOCK|0o644, 0)
@@ -399,6 +490,12 @@ func (d *describer) node(pth, rel string, depth int, lines *[]string) string {
 		return "(" + d.ctor("File") + " " + term + ")"
 	case d.x && fi.Mode()&os.ModeNamedPipe != 0:
 		// what a read of the FIFO delivers is what the feeder writes: ask the parser about these bytes
+		if unfed[pth] {
+			// nobody writes: a read would never deliver anything; the content is immaterial to a
+			// model that does not open the file (C13_x_other_content_irrelevant)
+			*lines = append(*lines, rel+": FIFO, no writer (opening it for reading blocks for ever)")
+			return "(XOther CErr)"
+		}
 		data, ok := fifos[pth]
 		if !ok {
 			panic("c13: FIFO without feeder data at " + pth)
@@ -425,6 +522,9 @@ func (d *describer) node(pth, rel string, depth int, lines *[]string) string {
 // ---------- observation ----------
 
 func classify(err error) (cls, kind, entry string) {
+	if ce, ok := err.(*childErr); ok {
+		return ce.o.Cls, ce.o.Kind, ce.o.Entry
+	}
 	switch err.(type) {
 	case truststore.TrustStoreError, *truststore.TrustStoreError:
 		cls = "ETrustStore"
@@ -495,6 +595,8 @@ type scenario struct {
 	// the tree holds FIFOs / sockets / devices (outside the property's alphabet):
 	// described as C13_Special.xnode, judged by xmodel
 	special bool
+	// the call is made in a child process with a time limit (it may never return)
+	child bool
 }
 
 func (sc *scenario) steps() []*scenario { return append([]*scenario{sc}, sc.next...) }
@@ -1221,6 +1323,28 @@ func (g *gen) scenarios(tier string, emit func(*scenario)) {
 					}
 				}
 			}
+			// a FIFO nobody writes to, at every position among 1-3 entries, and before an entry that
+			// fails for another reason: the call must return (refusing the FIFO for its kind)
+			for k := 1; k <= 3; k++ {
+				for pos := 0; pos <= k; pos++ {
+					sc := &scenario{family: "special-entry:fifo-no-writer", root: newDir(), special: true, child: true}
+					nm := Pick(rng, plainNames[:6])
+					d := sc.root.mkdir(storeRel(ty, nm))
+					names := g.names(k)
+					for i, n := range names {
+						switch {
+						case i == pos || (pos == k && i == 0):
+							d.ents[n] = newFifo(nil, "fifo-no-writer")
+						case pos == k && i == k-1:
+							d.ents[n] = g.badEntryFile("garbage")
+						default:
+							d.ents[n] = g.goodFile(ty)
+						}
+					}
+					sc.queries = []query{{ty, nm}}
+					emit(sc)
+				}
+			}
 			// two FIFOs in one store, both delivering good certificates
 			{
 				sc := &scenario{family: "special-entry:two-fifos", root: newDir(), special: true}
@@ -1360,9 +1484,9 @@ func runC13(a *Args) error {
 	// gcase = a case over the property's alphabet (GB, judged by C13_Model.run's functions) or over the
 	// larger alphabet with FIFOs / sockets / devices (GX, C13_Special); grun (map GB cs) = run cs is proved
 	w := NewCaseWriter(a, "C13", prelude, "gcase", "grun")
-	w.Rule = "real temporary directory trees queried through truststore.NewX509TrustStore(dir.NewSysFS(root)).GetCertificates: (valid) stores of 1-4 good files per type; (one-bad) one offending entry of each of 17 kinds at every position among 1-4 entries; the same files under all three types; 14 shapes of the store path itself (symlinked store inside/outside/relative/chained, dangling, file, absent, empty, type directory absent/file/symlink, x509 a file, truststore a symlink); non-plain names and unknown types with a loadable store placed where an unvalidated path.Join would lead (incl. '.', '..', '' with certificates directly in the type directory and in x509/); randomly assembled trees; (history) 2-5 states of one directory queried through ONE X509TrustStore instance: pass/fail/pass, fail/pass/fail, certificates replaced, store removed and recreated, store turned into a symlink / a file and back, an entry turned into a symlink, same name under another type - each call is its own case judged on the tree as read back at that moment; (near-name / near-type) a name or type one normalisation away from a valid one (surrounding white space, case, first / last path element, trailing separator, NUL, trailing dot, quotes, list) with loadable stores at every place a normalising implementation would read and nothing at the literal plain name; (skippable-entry-name) hidden / backup / readme / odd-extension names as the offending entry, as a good file among others, as the only file, as directory or link; (cert-position) the unacceptable certificate at every position of a 2-4 certificate file, that file first and last; (special-entry, OUTSIDE the property's alphabet, cases over C13_Special.xnode judged by xmodel) a FIFO fed by a concurrent writer with a good certificate / garbage / nothing / an unacceptable certificate / a non-root (tsa), a socket, the null device (where mknod is permitted) at every position among 1-3 entries, two FIFOs in one store, the store path or the type directory being a FIFO / socket. File formats: PEM, DER, multi-certificate, PEM with surrounding text, other block type, CRLF. The tree handed to the model is read back with Lstat/ReadDir/EvalSymlinks and file facts are asked from notation-core-go and crypto/x509. non-trivial = some regular file with at least one certificate exists below the root or behind a link; distinct = distinct (tree, type, name)"
+	w.Rule = "real temporary directory trees queried through truststore.NewX509TrustStore(dir.NewSysFS(root)).GetCertificates: (valid) stores of 1-4 good files per type; (one-bad) one offending entry of each of 17 kinds at every position among 1-4 entries; the same files under all three types; 14 shapes of the store path itself (symlinked store inside/outside/relative/chained, dangling, file, absent, empty, type directory absent/file/symlink, x509 a file, truststore a symlink); non-plain names and unknown types with a loadable store placed where an unvalidated path.Join would lead (incl. '.', '..', '' with certificates directly in the type directory and in x509/); randomly assembled trees; (history) 2-5 states of one directory queried through ONE X509TrustStore instance: pass/fail/pass, fail/pass/fail, certificates replaced, store removed and recreated, store turned into a symlink / a file and back, an entry turned into a symlink, same name under another type - each call is its own case judged on the tree as read back at that moment; (near-name / near-type) a name or type one normalisation away from a valid one (surrounding white space, case, first / last path element, trailing separator, NUL, trailing dot, quotes, list) with loadable stores at every place a normalising implementation would read and nothing at the literal plain name; (skippable-entry-name) hidden / backup / readme / odd-extension names as the offending entry, as a good file among others, as the only file, as directory or link; (cert-position) the unacceptable certificate at every position of a 2-4 certificate file, that file first and last; (special-entry: entries that are neither regular files, directories nor links; cases over C13_Special.xnode, model xmodel, oracle xspec_ok: loading anything from, or a store passing over, such an entry is a violation) a FIFO that nobody writes to at every position among 1-3 entries and before an unparsable file (the call is made in a re-executed child process with a 3 s limit: not returning is recorded as a violation), a FIFO fed by a concurrent writer with a good certificate / garbage / nothing / an unacceptable certificate / a non-root (tsa), a socket, the null device (where mknod is permitted) at every position among 1-3 entries, two FIFOs in one store, the store path or the type directory being a FIFO / socket. File formats: PEM, DER, multi-certificate, PEM with surrounding text, other block type, CRLF. The tree handed to the model is read back with Lstat/ReadDir/EvalSymlinks and file facts are asked from notation-core-go and crypto/x509. non-trivial = some regular file with at least one certificate exists below the root or behind a link; distinct = distinct (tree, type, name)"
 	w.Assumptions = []string{
-		"directory entries are regular files, directories or symbolic links; FIFOs, sockets and the null device are outside the property's alphabet and covered by the family special-entry over the larger alphabet of C13_Special (what a FIFO delivers = what the parser says of the bytes the harness's writer feeds; a FIFO that nobody ever writes to blocks GetCertificates for ever and is not exercised)",
+		"directory entries are regular files, directories or symbolic links; FIFOs, sockets and the null device are covered by the family special-entry over the larger alphabet of C13_Special (what a FIFO would deliver = what the parser says of the bytes the harness's writer stands ready to feed; block devices and other kinds are not created)",
 		"os.ReadDir of an existing real directory succeeds and files are readable (the harness runs as the owner); a read error is covered by the same branch as a parse error (CErr)",
 		"the root handed to dir.NewSysFS is a clean absolute path",
 		"symbolic links are represented by what the kernel resolves them to (no link cycles)",
@@ -1387,6 +1511,7 @@ func runC13(a *Args) error {
 	var id int64
 	var scn int
 	var fail error
+	hangs := 0 // calls that never returned (each costs the time limit: stop after two)
 	g.scenarios(a.Tier, func(sc *scenario) {
 		first := id
 		id += int64(sc.nq())
@@ -1440,7 +1565,28 @@ func runC13(a *Args) error {
 				if st.special {
 					stopFeed = feed(scDir) // a FIFO blocks its reader until a writer opens it
 				}
-				certs, err := ts.GetCertificates(context.Background(), truststore.Type(q.ty), q.name)
+				var certs []*x509.Certificate
+				var err error
+				if st.child {
+					if hangs >= 2 {
+						w.Count("skipped", "fifo-no-writer call after two calls that never returned")
+						stopFeed()
+						continue
+					}
+					var hung bool
+					certs, err, hung = callInChild(root, q.ty, q.name, 3*time.Second)
+					if hung {
+						stopFeed()
+						hangs++
+						if w.Want(my) {
+							w.ImplViolation(my, "GetCertificates did not return within 3 s: it opens a FIFO entry of the store that nobody writes to (an entry that is not a regular file must be refused, not read)",
+								c13Case{sc.family, q.ty, q.name, lines, "no result: the call blocks", stepText}, "blocks-on-fifo")
+						}
+						continue
+					}
+				} else {
+					certs, err = ts.GetCertificates(context.Background(), truststore.Type(q.ty), q.name)
+				}
 				stopFeed()
 				if !w.Want(my) {
 					continue
